@@ -94,7 +94,9 @@ SLoop(b) == [k |-> "loop", body |-> b]
 SDbg(e) == [k |-> "dbg", e |-> e]
 
 (* every operator applied to every pair of operand types (typed leaves)     *)
-TypedLeaves == {PStr(Sa), PNum(1), PBool(TRUE), PVar("match"), PVar("matchLength"), PBin("==", PNum(1), PNum(1))}
+\* the replacer's built-ins other than matchNumber are strings, inside transforms too (they read as text, `head` applies, `-` does not)
+TypedLeaves == {PStr(Sa), PNum(1), PBool(TRUE), PVar("match"), PVar("matchLength"), PBin("==", PNum(1), PNum(1)),
+                PVar("startOffset"), PVar("lineNumber")}
 TypeTable == {SDbg(PBin(op, l, r)) : op \in AllBinOps, l \in TypedLeaves, r \in TypedLeaves}
                \cup {SDbg(PUn(u, l)) : u \in PrefixOps, l \in TypedLeaves}
                \cup {SRet(PBin(op, l, r)) : op \in {"+", "-", "==", "and"}, l \in TypedLeaves, r \in TypedLeaves}
